@@ -10,8 +10,10 @@ def status (p : Proc) : String :=
   match p.pc with
   | .done => "done" | .failed => "failed" | .running => "running" | _ => "active"
 
+/-- the process number is observable on the real object once `FMMULock(...)` has returned -/
 def showProc (p : Proc) : String :=
-  joinSp p.trace ++ s!" # {status p} et={p.et} no={p.fmNo} progs={optS p.progs}"
+  let no := if p.trace.contains "fm_write" || p.trace.contains "fm_unlock" then p.fmNo else 0
+  joinSp p.trace ++ s!" # {status p} et={p.et} no={no} progs={optS p.progs}"
 
 def showDir : Option (List (Nat × Nat)) → String
   | none => "-"
